@@ -60,21 +60,31 @@ def run(ctx):
                     cases.append(('drop+flatten', s['tree'], lev, s['flat']))
             cases.append(('absent', s['tree'], 77, s['tree']))
         ctx.part('s2c', shapes=len(shapes), cases_available=len(cases))
+        def _deep(c):
+            # a dropped level with a choice parent on a retained level below it
+            kind, tj, lev, _ = c
+            h = tj['hier']
+            return kind == 'drop' and h.index(lev) < len(h) - 2 and any(
+                len(ks) > 1 for j in range(h.index(lev) + 1, len(h) - 1) for _, ks in tj['kids'][j])
         if quick:
-            cases = rng.sample(cases, 90)
+            deep = [c for c in cases if _deep(c)]
+            deeper = [c for c in deep if c[1]['hier'].index(c[2]) >= 1]      # ... and a retained level above it
+            cases = rng.sample(cases, 70) + rng.sample(deep, min(15, len(deep))) + rng.sample(deeper, min(15, len(deeper)))
         elif len(cases) > 2500:
             cases = rng.sample(cases, 2500)
         else:
             ctx.cov['exhaustive'] = True
         items, meta = [], []
+        n_below = n_below_gp = 0
         for kind, tj, lev, reduced in cases:
             tj = dict(tj)
             tj['cells'] = [[n, []] for n in tj['nodes'][-1]]
             img = maptrace.gen_scenario(rng, tree=tj, ncell=rng.randint(1, 6),
-                                        cfg={'drop': None, 'flatten': False})
+                                        cfg={'drop': None, 'flatten': False},
+                                        **({'G': 10} if _deep((kind, tj, lev, reduced)) else {}))
             safe_markers(rng, img)
             hier_ = tj['hier']
-            if kind == 'drop' and hier_.index(lev) < len(hier_) - 2 and rng.random() < 0.6:
+            if kind == 'drop' and hier_.index(lev) < len(hier_) - 2 and rng.random() < 0.75:
                 # a parent BELOW the dropped level with fewer usable markers than min_markers: its list is topped up
                 # from its ancestors in the REDUCED tree (never from the dropped level's node); the dropped node, the
                 # retained ancestors and the root each list different genes
@@ -91,6 +101,15 @@ def run(ctx):
                         anc = next(p_ for p_, ks in tj['kids'][jj - 1] if anc in ks)
                     img['markers'][f'{lev}/{anc}'] = sorted(usable[1:2 + (len(usable) > 3)])
                     img['markers']['0/0'] = sorted(usable[2:])
+                    n_below += 1
+                    if i_l >= 1 and len(usable) >= 6:
+                        n_below_gp += 1
+                        # a retained ancestor above the dropped level completes the list on its own: the root's
+                        # (different) genes are not needed
+                        gp = next(p_ for p_, ks in tj['kids'][i_l - 1] if anc in ks)
+                        img['markers'][f'{lev}/{anc}'] = [usable[1]]
+                        img['markers'][f'{hier_[i_l - 1]}/{gp}'] = sorted(usable[2:4])
+                        img['markers']['0/0'] = sorted(usable[4:])
                     img['cfg']['minm'] = 3
             base = copy.deepcopy(img)
             red = dict(reduced)
@@ -175,7 +194,8 @@ def run(ctx):
             p = pairs[0]
             ctx.sample({'kind': p['kind'], 'tree': p['tree'], 'levels': p['levels'],
                         'inferred': p['inferred'], 'image_first': p['image'][:1], 'base_first': p['base'][:1]})
-        ctx.part('pairs', compared=len(pairs), rejected=rej,
+        ctx.part('pairs', compared=len(pairs), rejected=rej, short_parent_below_drop=n_below,
+                 short_parent_below_drop_with_retained_ancestor=n_below_gp,
                  kinds={k: sum(1 for p in pairs if p['kind'] == k) for k in ('drop', 'flatten', 'drop+flatten', 'absent')})
 
 
